@@ -464,6 +464,8 @@ def canaries(chk, prog):
 
 
 def run(chk, prog, tier):
+    from props.c13 import recomputed_rule
+    recomputed_rule(chk, prog)
     for key, methods in STREAMING.items():
         check_class(chk, prog, key, methods)
     isolation(chk, prog)
